@@ -122,9 +122,13 @@ def run_case(case):
         return obs
     if kind == 'copy':
         dt = X.build(case['d'])
+        via_failed = None
         if case.get('via') == 'rebuilt':
-            dt = get_datatype(json.loads(json.dumps(dt.export_datatype())))
-        obs = {'x': X.describe(dt), 'exp': _try(dt.export_datatype)}
+            try:
+                dt = get_datatype(json.loads(json.dumps(dt.export_datatype())))
+            except Exception as e:                       # recorded as data: the oracle reports it
+                via_failed = _exc_name(e)
+        obs = {'x': X.describe(dt), 'exp': _try(dt.export_datatype), 'via_failed': via_failed}
         cp = _try(dt.copy)
         obs['copy'] = cp
         obs['probes'] = obs['cprobes'] = []
@@ -368,6 +372,8 @@ def oracle(case, obs):
     if kind == 'copy':
         if not grid_aligned(obs['x']):
             return fails
+        if obs.get('via_failed'):
+            fail('rebuild-fails', f'get_datatype(export_datatype()) of {case["d"]} raised {obs["via_failed"]}')
         if obs['copy'][0] != 'ok':
             fail('copy-fails', f'copy() of {case["d"]} raised {obs["copy"][1]}')
             return fails
